@@ -125,13 +125,17 @@ def _radius_cumul(a):
     return 'qz (RadiusM.radius_cumul_m %s %s %s)' % (q(a[0]), lst(q, a[1]), lst(q, a[2]))
 
 
-OPS = {'radius_sigma': _radius_sigma, 'radius_cumul': _radius_cumul, 'read_files': _read_files, 'get_av': _get_av, 'normalize': _normalize, 'conv': _conv, 'fmt_f': _fmt_f, 'gridlog': _gridlog, 'nkeep': _nkeep, 'rebin': _rebin, 'interp_clamp': _interp_clamp, 'mono': _mono, 'filter_table': _filter_table, 'rank': _rank,
+def _ndist_g(a):
+    return 'GridGuard.ndist_g %s %s %s' % (q(a[0]), q(a[1]), q(a[2]))
+
+
+OPS = {'ndist_g': _ndist_g, 'radius_sigma': _radius_sigma, 'radius_cumul': _radius_cumul, 'read_files': _read_files, 'get_av': _get_av, 'normalize': _normalize, 'conv': _conv, 'fmt_f': _fmt_f, 'gridlog': _gridlog, 'nkeep': _nkeep, 'rebin': _rebin, 'interp_clamp': _interp_clamp, 'mono': _mono, 'filter_table': _filter_table, 'rank': _rank,
        'sed_roundtrip': _sed_roundtrip, 'isub': _isub, 'ndist': _ndist, 'nearest': _nearest}
 
 HEADER = '''From Coq Require Import QArith ZArith List.
 Import ListNotations.
 From SedV Require Import Xnum Keep Keep0 PLin FilterOut FitModel Grid Table FTable TableProofs ConvolveM MonoM SedIO SedIOM Fmt ReadM.
-From SedV Require RadiusM.
+From SedV Require RadiusM GridGuard.
 Definition qz (x : Q) : Z * Z := let y := Qred x in (Qnum y, Zpos (Qden y)).
 '''
 
